@@ -105,6 +105,53 @@ func vfC04WGen(rt *rapid.T) *vfC04WCase {
 		c.Steps = append(c.Steps, vfC04WStep{Sleep: time.Duration(rapid.SampledFrom([]int{1, 3, 6, 21}).Draw(rt, "sleepsec")) * time.Second})
 		c.Steps = append(c.Steps, st)
 	}
+	if rapid.IntRange(0, 3).Draw(rt, "twopiece") == 0 {
+		// a denial synthesised from pieces of different age: two unasked names of one gap between owners, asked a while
+		// apart with another gap's name in between - the second is answered from the first one's (older) covering record
+		// and a younger apex record
+		var ols []string
+		for o := range owners {
+			if l := strings.TrimSuffix(o, ".z.test."); l != o && !strings.Contains(l, ".") && !strings.HasPrefix(l, "*") && !strings.Contains(l, "\\") {
+				ols = append(ols, l)
+			}
+		}
+		ols = append(ols, "ns1")
+		sort.Strings(ols)
+		gapOf := func(l string) int { return sort.SearchStrings(ols, l) }
+		isOwner := func(l string) bool { i := sort.SearchStrings(ols, l); return i < len(ols) && ols[i] == l }
+		byGap := map[int][]string{}
+		for _, l := range qlabels {
+			if !isOwner(l) {
+				byGap[gapOf(l)] = append(byGap[gapOf(l)], l)
+			}
+		}
+		var gaps []int
+		for g := range byGap {
+			gaps = append(gaps, g)
+		}
+		sort.Ints(gaps)
+		for _, g := range gaps {
+			if len(byGap[g]) < 2 {
+				continue
+			}
+			other := ""
+			for _, g2 := range gaps {
+				if g2 != g {
+					other = byGap[g2][0]
+				}
+			}
+			st := vfC04WStep{DO: rapid.Bool().Draw(rt, "do"), Wire: rapid.Bool().Draw(rt, "wire"), Client: 1, Qtype: dns.TypeA}
+			st.Name = byGap[g][0] + ".z.test."
+			c.Steps = append(c.Steps, st, vfC04WStep{Sleep: time.Duration(rapid.SampledFrom([]int{3, 4, 15, 19}).Draw(rt, "sleepsec")) * time.Second})
+			if other != "" {
+				st.Name = other + ".z.test."
+				c.Steps = append(c.Steps, st)
+			}
+			st.Name, st.Wire = byGap[g][1]+".z.test.", rapid.Bool().Draw(rt, "wire")
+			c.Steps = append(c.Steps, st)
+			break
+		}
+	}
 	steps := rapid.IntRange(3, 12).Draw(rt, "nsteps")
 	for i := 0; i < steps; i++ {
 		if rapid.IntRange(0, 3).Draw(rt, "sleep") == 0 {
@@ -133,7 +180,9 @@ func vfC04WGen(rt *rapid.T) *vfC04WCase {
 		default:
 			st.Name = rapid.SampledFrom(qlabels).Draw(rt, "ql") + ".z.test."
 		}
-		if rapid.IntRange(0, 2).Draw(rt, "hasecs") == 0 { // with the ECS policy on or off: the option is a fact about the query either way
+		// with the ECS policy on or off - the option is a fact about the query either way; rarer with the policy off, where
+		// such a question only ever bypasses the shared denial state this unit is mostly about
+		if (c.ECSOn && rapid.IntRange(0, 2).Draw(rt, "hasecs") == 0) || (!c.ECSOn && rapid.IntRange(0, 7).Draw(rt, "hasecsoff") == 0) {
 			st.ECS = rapid.SampledFrom([]string{"valid", "mapped", "mapped", "mismatch", "v4-long", "hostbits", "family0"}).Draw(rt, "ecskind")
 		}
 		c.Steps = append(c.Steps, st)
